@@ -1,6 +1,7 @@
 """Direct property oracles on real SpectrumResults (used for the failing-input search of C06, C09, C10, C11, C20)."""
 import copy, pickle, math
 import numpy as np
+from .attrs import resolve_kw
 
 CROSS_ONLY = ["csd", "Gyx", "Hxy", "Hyx", "coh", "ccoh", "cs", "tf", "cf", "cf_db", "cf_rad", "cf_deg", "cf_rad_unwrapped",
               "cf_deg_unwrapped", "GyyCx", "GyyRx", "GyySx", "Gxy_dev", "Hxy_dev", "coh_dev", "Gxy_error", "Hxy_mag_error",
@@ -67,7 +68,7 @@ def oracle_c20(r, an, info, rng):
                     if not close(got[k], exp[k], rtol=1e-9, atol=1e-300) or not close(arr[k], exp[k], rtol=1e-9, atol=1e-300):
                         out.append(("interp:" + nm, "get_measurement(%r, %r) %s: got %r / %r, expected %r" % (q[k], nm, lab, got[k], arr[k], exp[k])))
                         break
-            else:
+            elif len(f) == 1:      # (a user plan listing bins out of order is outside np.interp's contract: not interpolated here)
                 got = r.get_measurement(float(f[0]), nm)
                 if not close(got, tab[0], rtol=1e-12):
                     out.append(("interp:" + nm, "single-bin get_measurement: %r vs %r" % (got, tab[0])))
@@ -147,7 +148,7 @@ def oracle_c09(r, an, info, rng):
             j = int(np.argmax(np.abs(r.GyySx - r.Gyy * (1 - coh)) / scale)); out.append(("Sx", "GyySx=%r != Gyy*(1-coh)=%r at bin %d" % (r.GyySx[j], (r.Gyy * (1 - coh))[j], j)))
         # swap channels and analyse x alone (same configuration)
         if info["which"] != "single":
-            kw = info["kw"]
+            kw = resolve_kw(info["kw"])
             rs = SpectrumAnalyzer(np.vstack([info["y"], info["x"]]), info["fs"], **kw).compute()
             ra = SpectrumAnalyzer(info["x"], info["fs"], **kw).compute()
             if not close(rs.coh, coh, rtol=1e-9, atol=1e-12):
@@ -279,7 +280,7 @@ def oracle_c06(r, an, info, rng):
             if S1 != 0 and not close(r.ENBW[j], r.fs * S2 / (S1 * S1), rtol=1e-12):
                 out.append(("ENBW", "bin %d: ENBW=%r != fs*S2/S1^2=%r" % (j, r.ENBW[j], r.fs * S2 / (S1 * S1))))
         if info["which"] != "single":
-            kw = info["kw"]
+            kw = resolve_kw(info["kw"])
             c = rng.choice([-3.0, 0.5, 7.0]); dd = rng.choice([2.0, -0.25])
             # absolute floor: rounding noise relative to the channel's total power (a detrended constant is pure noise)
             with np.errstate(all="ignore"):
